@@ -457,6 +457,9 @@ class Reader:
                 elif sig == b'SL':
                     if not body:
                         self.f.add('su-length', '%s: empty SL entry' % owner)
+                    elif out.get('sl_seen') and not out.get('sl_continue'):
+                        # RRIP 4.1.3: the link ends with the first SL entry whose CONTINUE flag is clear; what follows is not part of it
+                        self.f.add('rr-sl-continue', '%s: an SL entry follows one whose CONTINUE flag is clear' % owner)
                     else:
                         fl = body[0]
                         k = 1
